@@ -28,6 +28,8 @@ from rsextract import ExtractError  # noqa: E402
 
 REPO = os.environ.get("VERIF_REPO", "/repo")
 KNOWN = os.path.join(VERIF, "known_findings.txt")
+# evidence/ and replays/ normally live in /verif; the self-test redirects them so that it never touches committed evidence
+OUT = os.environ.get("VERIF_OUT", VERIF)
 
 
 def load_meta():
@@ -274,7 +276,7 @@ class Run:
                 for pr in pres:
                     pb_results[pr.harness.oid] = pr
         findings, _fixed = load_known()
-        os.makedirs(os.path.join(VERIF, "replays"), exist_ok=True)
+        os.makedirs(os.path.join(OUT, "replays"), exist_ok=True)
 
         def known(oid: str) -> dict | None:
             for f in findings:
@@ -301,7 +303,7 @@ class Run:
             if kf:
                 self.known_hits.append({"finding": kf, "obligation": h.oid})
                 continue
-            rp = os.path.join(VERIF, "replays", f"{prop}-{re.sub(r'[^A-Za-z0-9_.-]', '_', h.oid)}.json")
+            rp = os.path.join(OUT, "replays", f"{prop}-{re.sub(r'[^A-Za-z0-9_.-]', '_', h.oid)}.json")
             json.dump(rep, open(rp, "w"), indent=1)
             has_input = bool(pr and pr.playback)
             self.violations.append({"obligation": h.oid, "replay": rp, "input": has_input, "native": native})
@@ -321,7 +323,7 @@ class Run:
                 self.known_hits.append({"finding": kf, "obligation": oid})
                 continue
             ob = info["ob"]
-            rp = os.path.join(VERIF, "replays", f"{prop}-{re.sub(r'[^A-Za-z0-9_.-]', '_', oid)}.json")
+            rp = os.path.join(OUT, "replays", f"{prop}-{re.sub(r'[^A-Za-z0-9_.-]', '_', oid)}.json")
             json.dump({"property": prop, "obligation": oid, "backend": "verus", "function": ob.src, "clause": ob.text,
                        "verifier_output": [d["rendered"] for d in info["diags"]][:5], "counterexample": None,
                        "note": "Verus gives no counterexample; paired bounded Kani harnesses found none: no-failing-input-found",
@@ -386,8 +388,8 @@ class Run:
             "wall_s": round(wall, 1),
             "violations": len(self.violations),
         }
-        os.makedirs(os.path.join(VERIF, "evidence"), exist_ok=True)
-        json.dump(ev, open(os.path.join(VERIF, "evidence", f"{prop}.json"), "w"), indent=1)
+        os.makedirs(os.path.join(OUT, "evidence"), exist_ok=True)
+        json.dump(ev, open(os.path.join(OUT, "evidence", f"{prop}.json"), "w"), indent=1)
         for k in self.known_hits:
             print(f"KNOWN-FINDING: property={prop} obligation={k['obligation']} {k['finding'].get('what', '')}")
         for v in self.violations:
